@@ -132,6 +132,22 @@ def families(ctx, rnd, thorough, which):
             scs.append(sc)
     if "rw" in which or "long" in which:
         scs += bigindex_sessions(rnd, 4 if thorough else 2)
+    if "long" in which:
+        # 300 short-named one-byte tags: one multi-service packet with more than 255 members on the large connection
+        big = [{"name": "b%d" % j, "code": 0xC2, "dims": []} for j in range(262)]
+        sc = logix_rw.session(rnd, 1200, prefix="many", n_calls=0, big=big, policy="LargeOK", caps=False, n_tags=1)
+        sc["calls"] = [{"api": "open"}, S.read_call([R([(b["name"], [])]) for b in big]), {"api": "close"}]
+        sc["family"] = "logix-many"
+        scs.append(sc)
+        # a target that hands out one byte per fragment: a transfer of many hundred fragments is still one read
+        big = [{"name": "SLOW", "code": 0xC4, "dims": [150]}]
+        sc = logix_rw.session(rnd, 1201, prefix="slow", n_calls=0, big=big, policy="LargeRefused", caps=False, n_tags=1)
+        sc["target"]["caps"] = [1] * 700
+        sc["target"]["caps_tags_only"] = True       # the upload during open is not slowed down
+        sc["calls"] = [{"api": "open"}, S.read_call([R([("SLOW", [])], count=150), R([("NoSuchTag", [])])]), {"api": "close"}]
+        sc["family"] = "logix-slow-target"
+        sc["budget"] = 20000
+        scs.append(sc)
     if "window" in which:
         scs += window_sessions(rnd, 300 if thorough else 21, thorough)
     if "invalid" in which:
